@@ -93,6 +93,8 @@ where
 
     for _ in 0..max_passes {
         let old_edge_cut = best_edge_cut;
+        #[cfg(feature = "coupe_verif")]
+        crate::verif::record("fm_pass", vec![best_edge_cut as u64]);
         let mut current_edge_cut = best_edge_cut;
         let mut move_with_best_edge_cut = None;
 
@@ -180,6 +182,8 @@ where
                 initial_part,
             });
             tracing::info!(moved_vertex, initial_part, target_part, "moved vertex");
+            #[cfg(feature = "coupe_verif")]
+            crate::verif::record("fm_move", vec![moved_vertex as u64, move_gain as u64]);
 
             current_edge_cut -= move_gain;
             debug_assert_eq!(current_edge_cut, adjacency.edge_cut(partition));
